@@ -156,9 +156,20 @@ def check(ctx):
                     callee_err, t_err = _slot_callee(f, pair.elts[1], local_tuples)
                     good = callee_ok is not None and callee_err is not None
 
+                def defaulted(expr, pname):
+                    """`_failthru if P is None else P` (either way round): P with the pass-through as default"""
+                    if not isinstance(expr, ast.IfExp):
+                        return False
+                    isnone = ident_fact(expr.test, True, lambda x: is_name(x, pname), lambda x: is_const(x, None))
+                    if isnone is None:
+                        return False
+                    when_none, otherwise = (expr.body, expr.orelse) if isnone else (expr.orelse, expr.body)
+                    return is_name(when_none, "_failthru") and is_name(otherwise, pname)
+
                 def matches(expr, want):
                     if want.startswith("P:"):
-                        return is_name(expr, ps[int(want[2:])])
+                        pn = ps[int(want[2:])]
+                        return is_name(expr, pn) or (name == "addCallbacks" and want == "P:1" and defaulted(expr, pn))
                     return is_name(expr, want)
                 ctx.check(good and matches(callee_ok, want_ok) and matches(callee_err, want_err), "adder/slot-layout", ctx.construct(fq, c),
                           f"{name} does not store (success-callable, error-callable) = ({want_ok}, {want_err}) in slots (0, 1): "
@@ -199,7 +210,10 @@ def check(ctx):
             if name == "addCallbacks":
                 # errback=None means pass the failure through
                 dfl = stmt_nodes(fg, lambda st: any(is_name(t, ps[1]) and is_name(v, "_failthru") for t, v in targets_values(st) if v is not None))
-                ctx.check(bool(dfl) and all(any(ident_fact(e, pol, lambda x: is_name(x, ps[1]), lambda x: is_const(x, None)) is True
+                inline_default = any(isinstance(x, ast.IfExp) and is_name(x.body if is_name(x.body, "_failthru") else x.orelse, "_failthru")
+                                     and ident_fact(x.test, True, lambda y: is_name(y, ps[1]), lambda y: is_const(y, None)) is (True if is_name(x.body, "_failthru") else False)
+                                     for x in ast.walk(f))
+                ctx.check(inline_default or bool(dfl) and all(any(ident_fact(e, pol, lambda x: is_name(x, ps[1]), lambda x: is_const(x, None)) is True
                                                 for e, pol in facts(fg, d)) for d in dfl),
                           "adder/default-errback", fq, "addCallbacks(cb) without errback no longer passes failures through unchanged")
             rets = stmt_nodes(fg, lambda st: isinstance(st, ast.Return))
@@ -738,6 +752,11 @@ MUTANTS = [
     Mutant("take-or-wait-skips-failures", D, "                            resultResult is _NO_RESULT\n                            or type(resultResult) in _DEFERRED_SUBCLASSES\n",
            "                            resultResult is _NO_RESULT\n                            or isinstance(resultResult, Failure)\n                            or type(resultResult) in _DEFERRED_SUBCLASSES\n",
            expect_rule="steal/decision-domain"),
+    Mutant("context-manager-does-not-reset-the-flag", D,
+           "                try:\n                    current._runningCallbacks = True\n                    try:\n                        # type note: mypy sees `callback is _CONTINUE` above and\n                        #    then decides that `callback` is not callable.\n                        #    This goes away when we use `_Sentinel._CONTINUE`\n                        #    instead, but we don't want to do that attribute\n                        #    lookup in this hot code path, so we ignore the mypy\n                        #    complaint here.\n                        current.result = callback(  # type: ignore[misc]\n                            current.result, *args, **kwargs\n                        )\n\n                        if current.result is current:\n                            warnAboutFunction(\n                                callback,\n                                \"Callback returned the Deferred \"\n                                \"it was attached to; this breaks the \"\n                                \"callback chain and will raise an \"\n                                \"exception in the future.\",\n                            )\n                    finally:\n                        current._runningCallbacks = False\n                except BaseException:\n",
+           "                try:\n                    with _Busy(current):\n                        current.result = callback(current.result, *args, **kwargs)\n                        if current.result is current:\n                            warnAboutFunction(callback, \"Callback returned the Deferred it was attached to\")\n                except BaseException:\n",
+           more=[(D, "class Deferred(Awaitable[_SelfResultT]):\n", "class _Busy:\n    def __init__(self, d):\n        self._d = d\n\n    def __enter__(self):\n        self._d._runningCallbacks = True\n\n    def __exit__(self, *exc):\n        if exc[0] is None:\n            self._d._runningCallbacks = False\n\n\nclass Deferred(Awaitable[_SelfResultT]):\n")],
+           expect_rule="reentrancy/flag-reset-on-every-exit"),
 ]
 SILENT = [
     Silent("rename-locals", D, "item = current.callbacks.pop(0)\n                if not isinstance(current.result, Failure):\n                    callback, args, kwargs = item[0]",
@@ -799,4 +818,17 @@ SILENT = [
            "                        if (\n                            resultResult is _NO_RESULT\n                            or type(resultResult) in _DEFERRED_SUBCLASSES\n                            or currentResult.paused\n                        ):\n",
            "                        if resultResult is _NO_RESULT:\n                            mustWait = True\n                        elif isinstance(resultResult, Deferred):\n                            mustWait = True\n                        else:\n                            mustWait = currentResult.paused > 0\n                        if mustWait:\n",
            allow_error=True),
+    Silent("slot-selected-by-conditional-expression", D, "                if not isinstance(current.result, Failure):\n                    callback, args, kwargs = item[0]\n                else:\n                    # type note: Callback signature also works for Errbacks in\n                    #     this context.\n                    callback, args, kwargs = item[1]\n",
+           "                callback, args, kwargs = item[1] if isinstance(current.result, Failure) else item[0]\n"),
+    Silent("running-flag-through-context-manager-class", D,
+           "                try:\n                    current._runningCallbacks = True\n                    try:\n                        # type note: mypy sees `callback is _CONTINUE` above and\n                        #    then decides that `callback` is not callable.\n                        #    This goes away when we use `_Sentinel._CONTINUE`\n                        #    instead, but we don't want to do that attribute\n                        #    lookup in this hot code path, so we ignore the mypy\n                        #    complaint here.\n                        current.result = callback(  # type: ignore[misc]\n                            current.result, *args, **kwargs\n                        )\n\n                        if current.result is current:\n                            warnAboutFunction(\n                                callback,\n                                \"Callback returned the Deferred \"\n                                \"it was attached to; this breaks the \"\n                                \"callback chain and will raise an \"\n                                \"exception in the future.\",\n                            )\n                    finally:\n                        current._runningCallbacks = False\n                except BaseException:\n",
+           "                try:\n                    with _Busy(current):\n                        current.result = callback(current.result, *args, **kwargs)\n                        if current.result is current:\n                            warnAboutFunction(callback, \"Callback returned the Deferred it was attached to\")\n                except BaseException:\n",
+           more=[(D, "class Deferred(Awaitable[_SelfResultT]):\n", "class _Busy:\n    def __init__(self, d):\n        self._d = d\n\n    def __enter__(self):\n        self._d._runningCallbacks = True\n\n    def __exit__(self, *exc):\n        self._d._runningCallbacks = False\n\n\nclass Deferred(Awaitable[_SelfResultT]):\n")]),
+    Silent("hand-over-detected-by-stack-depth", D, "            finished = True\n            current._chainedTo = None\n", "            before = len(chain)\n            current._chainedTo = None\n",
+           more=[(D, "                    finished = False\n                    break\n", "                    break\n"),
+                 (D, "            if finished:\n                # As much of the callback chain", "            if len(chain) == before:\n                # As much of the callback chain")]),
+    Silent("adders-share-one-registration-method", D, "        self.callbacks.append(((callback, args, kwargs), (_failthru, (), {})))\n\n        if self.called:\n            self._runCallbacks()\n\n        return self\n",
+           "        self._register((callback, args, kwargs), (_failthru, (), {}))\n        return self\n",
+           more=[(D, "        self.callbacks.append(((passthru, (), {}), (errback, args, kwargs)))\n\n        if self.called:\n            self._runCallbacks()\n\n        return self\n", "        self._register((passthru, (), {}), (errback, args, kwargs))\n        return self\n"),
+                 (D, "    def chainDeferred(self, d:", "    def _register(self, good, bad):\n        self.callbacks.append((good, bad))\n        if self.called:\n            self._runCallbacks()\n\n    def chainDeferred(self, d:")]),
 ]
